@@ -95,6 +95,32 @@ template <class T> struct Parse<T, false> {
 };
 
 static volatile long g_ub = 0;
+
+// ---- robustness: a trap (SIGFPE, SIGSEGV, ...) or the CPU-time watchdog (RLIMIT_CPU -> SIGXCPU) ends the current
+// request, not the process; the answer names the request and, inside a sweep, the operand pair being evaluated.
+#include <csetjmp>
+#include <csignal>
+#include <sys/resource.h>
+static sigjmp_buf g_jb;
+static volatile sig_atomic_t g_in_request = 0;
+static volatile long g_cur_a = 0, g_cur_b = 0;
+static volatile int g_cur_valid = 0;
+static void on_trap(int sig) { if (g_in_request) siglongjmp(g_jb, sig); _exit(100 + sig); }
+static void install_traps(long cpu_seconds) {
+    const int sigs[] = { SIGFPE, SIGSEGV, SIGBUS, SIGILL, SIGABRT, SIGXCPU };
+    for (unsigned i = 0; i < sizeof sigs / sizeof sigs[0]; ++i) {
+        struct sigaction sa; std::memset(&sa, 0, sizeof sa); sa.sa_handler = on_trap; sa.sa_flags = SA_NODEFER;
+        sigaction(sigs[i], &sa, nullptr);
+    }
+    struct rlimit rl; rl.rlim_cur = (rlim_t)cpu_seconds; rl.rlim_max = (rlim_t)cpu_seconds + 30; setrlimit(RLIMIT_CPU, &rl);
+}
+static void bump_cpu_limit(long cpu_seconds) {     // after a watchdog hit: give the remaining requests a fresh budget
+    struct rusage ru; getrusage(RUSAGE_SELF, &ru);
+    struct rlimit rl; getrlimit(RLIMIT_CPU, &rl);
+    rl.rlim_cur = (rlim_t)(ru.ru_utime.tv_sec + ru.ru_stime.tv_sec + cpu_seconds);
+    if (rl.rlim_cur + 30 > rl.rlim_max) rl.rlim_cur = rl.rlim_max > 30 ? rl.rlim_max - 30 : rl.rlim_max;
+    setrlimit(RLIMIT_CPU, &rl);
+}
 '''
 
 # ------------------------------------------------------------------------------------------------
@@ -120,6 +146,12 @@ template <class X, class R> static unsigned facts() {
     X* q = new (buf) X{};
     (void)q;
     m |= (sizeof(X) >= VB<R>::n && std::memcmp(buf, &z, VB<R>::n) == 0) ? 64u : 0u;
+    std::memset(buf, 0xAB, sizeof buf);
+    X* q2 = new (buf) X();
+    (void)q2;
+    m |= (sizeof(X) >= VB<R>::n && std::memcmp(buf, &z, VB<R>::n) == 0) ? 128u : 0u;
+    constexpr X cx{};                       // default construction inside a constant expression
+    m |= (sizeof(X) >= VB<R>::n && std::memcmp(&cx, &z, VB<R>::n) == 0) ? 256u : 0u;
     return m;
 }
 template <class U, class R> static void row(const char* un, const char* rn) {
@@ -293,6 +325,7 @@ template <class F, class R, class T, int Mode, class UQ> struct Kernel {
             for (long b = blo; b <= bhi; ++b) {
                 uint64_t qw = 0, rw = 0;
                 ++s.n;
+                g_cur_a = a; g_cur_b = b; g_cur_valid = 1;
                 if (run((R)a, (Bt)b, qw, rw, nullptr, nullptr)) {
                     ++s.defined;
                     if (qw != rw && !s.mism++) s.first = std::to_string(a) + "," + std::to_string(b);
@@ -335,10 +368,78 @@ static const Entry* find(const char* op, const char* r, const char* t, int ul) {
         }
     return nullptr;
 }
+// ---- the constant-evaluation path: the same operators inside constant expressions (values 7 and 3) -------------------
+template <class Q> constexpr Q ce_as(Q x, Q y, int k) { if (k == 0) x += y; else x -= y; return x; }
+template <class Q, class S> constexpr Q ce_sc(Q x, S s, int k) { if (k == 0) x *= s; else x /= s; return x; }
+template <class R> constexpr R ce_ras(R x, R y, int k) { if (k == 0) x += y; else x -= y; return x; }
+template <class R> constexpr R ce_rsc(R x, R s, int k) { if (k == 0) x *= s; else x /= s; return x; }
+template <class R, bool Wide = (sizeof(R) >= 4)> struct CEUnary {     // F4: `%`, unary +/- are not usable for narrow reps
+    static int bad() { return 0; }
+};
+template <class R, bool Int = std::is_integral<R>::value> struct CEMod { static int bad() { return 0; } };
+template <class R> struct CEMod<R, true> {
+    static int bad() {
+        constexpr R a = R(7), b = R(3);
+        constexpr auto q = (au::make_quantity<U>(a) % au::make_quantity<U>(b)).in(U{});
+        constexpr auto r = a % b;
+        return (q == r && std::is_same<decltype(q), decltype(r)>::value) ? 0 : 1;
+    }
+};
+template <class R> struct CEUnary<R, true> {
+    static int bad() {
+        constexpr R a = R(7);
+        constexpr auto qa = au::make_quantity<U>(a);
+        constexpr auto n = (-qa).in(U{}); constexpr auto p = (+qa).in(U{});
+        constexpr auto rn = -a; constexpr auto rp = +a;
+        return (n == rn ? 0 : 1) + (p == rp ? 0 : 1) + CEMod<R>::bad();
+    }
+};
+template <class R> static void ce_line(const char* rn) {
+    constexpr R a = R(7), b = R(3);
+    constexpr auto qa = au::make_quantity<U>(a);
+    constexpr auto qb = au::make_quantity<U>(b);
+    int bad = 0, n = 0;
+#define CEQ(QE, RE) { constexpr auto q_ = (QE); constexpr auto r_ = (RE); ++n; if (!(q_ == r_) || !std::is_same<decltype(q_), decltype(r_)>::value) ++bad; }
+    CEQ((qa + qb).in(U{}), a + b) CEQ((qa - qb).in(U{}), a - b) CEQ((qb - qa).in(U{}), b - a)
+    CEQ((qa * b).in(U{}), a * b) CEQ((b * qa).in(U{}), b * a) CEQ((qa / b).in(U{}), a / b)
+    CEQ(qa == qb, a == b) CEQ(qa != qb, a != b) CEQ(qa < qb, a < b) CEQ(qa <= qb, a <= b) CEQ(qa > qb, a > b) CEQ(qa >= qb, a >= b)
+    CEQ(qa == qa, a == a) CEQ(qa <= qa, a <= a) CEQ(qa >= qa, a >= a) CEQ(qa < qa, a < a) CEQ(qb < qa, b < a) CEQ(qb >= qa, b >= a)
+    CEQ(ce_as(qa, qb, 0).in(U{}), ce_ras(a, b, 0)) CEQ(ce_as(qa, qb, 1).in(U{}), ce_ras(a, b, 1))
+    CEQ(ce_sc(qa, b, 0).in(U{}), ce_rsc(a, b, 0)) CEQ(ce_sc(qa, b, 1).in(U{}), ce_rsc(a, b, 1))
+    CEQ(au::QuantityMaker<U>{}(a).in(au::QuantityMaker<U>{}), a) CEQ(au::Quantity<U, R>{}.in(U{}), R{})
+#undef CEQ
+    bad += CEUnary<R>::bad();
+    std::printf("C %s n=%d bad=%d\n", rn, n + 3, bad);
+}
+static void ce_dispatch(const char* r) {
+    if (!std::strcmp(r, "i8")) ce_line<signed char>(r); else if (!std::strcmp(r, "u8")) ce_line<unsigned char>(r);
+    else if (!std::strcmp(r, "i16")) ce_line<short>(r); else if (!std::strcmp(r, "u16")) ce_line<unsigned short>(r);
+    else if (!std::strcmp(r, "i32")) ce_line<int>(r); else if (!std::strcmp(r, "u32")) ce_line<unsigned>(r);
+    else if (!std::strcmp(r, "i64")) ce_line<long>(r); else if (!std::strcmp(r, "u64")) ce_line<unsigned long>(r);
+    else if (!std::strcmp(r, "f32")) ce_line<float>(r); else if (!std::strcmp(r, "f64")) ce_line<double>(r);
+    else if (!std::strcmp(r, "f80")) ce_line<long double>(r); else std::puts("bad");
+}
+
 int main() {
     char line[512];
+    install_traps(@CPU_LIMIT@);
     while (std::fgets(line, sizeof line, stdin)) {
         char cmd[8], op[16], r[8], t[8], a[64], b[64]; int ul = 0;
+        size_t len = std::strlen(line); if (len && line[len - 1] == '\n') line[len - 1] = 0;
+        g_cur_valid = 0;
+        int sig = sigsetjmp(g_jb, 1);
+        if (sig) {
+            g_in_request = 0;
+            if (sig == SIGXCPU) bump_cpu_limit(@CPU_LIMIT@);
+            if (g_cur_valid) std::printf("TRAP sig=%d a=%ld b=%ld\n", sig, (long)g_cur_a, (long)g_cur_b);
+            else std::printf("TRAP sig=%d\n", sig);
+            std::fflush(stdout);
+            continue;
+        }
+        if (line[0] == 'C') {
+            if (std::sscanf(line, "%7s %7s", cmd, r) != 2) { std::puts("bad"); std::fflush(stdout); continue; }
+            ce_dispatch(r); std::fflush(stdout); continue;
+        }
         int n = std::sscanf(line, "%7s %15s %7s %7s %d %63s %63s", cmd, op, r, t, &ul, a, b);
         if (n < 5) { std::puts("bad"); std::fflush(stdout); continue; }
         const Entry* e = find(op, r, t, ul);
@@ -351,13 +452,17 @@ int main() {
             V va, vb;
             if (!e->parse_a(a, va) || !e->parse_b(b, vb)) { std::puts("bad-value"); std::fflush(stdout); continue; }
             Out o; long ub0 = g_ub;
+            g_in_request = 1;
             e->eval(va, vb, o);
+            g_in_request = 0;
             if (o.defined) std::printf("P compiled=1 def=1 q=%s r=%s ub=%ld\n", o.qval.c_str(), o.rval.c_str(), g_ub - ub0);
             else std::printf("P compiled=1 def=0 q=- r=- ub=0\n");
         } else if (cmd[0] == 'S') {
             if (e->compiled != 1 || !e->sweep) { std::puts("S compiled=0"); std::fflush(stdout); continue; }
             SweepOut s; long ub0 = g_ub;
+            g_in_request = 1;
             e->sweep(s);
+            g_in_request = 0;
             std::printf("S compiled=1 n=%ld defined=%ld qhash=%llu rhash=%llu mism=%ld first=%s ub=%ld\n", s.n, s.defined,
                         (unsigned long long)s.qh, (unsigned long long)s.rh, s.mism, s.first.c_str(), g_ub - ub0);
         } else std::puts("bad");
@@ -387,12 +492,25 @@ template <class T> __attribute__((noinline)) static T q_rt_unit(T x) { return au
 template <class T> __attribute__((noinline)) static T q_rt_data(T x) { auto q = qmaker(x); return q.data_in(U{}); }
 template <class T> __attribute__((noinline)) static T p_rt(T x) { return pmaker(x).in(pmaker); }
 template <class T> static T q_rt_inl(T x) { return qmaker(x).in(qmaker); }
+// further spellings of the same round trip: rep-explicit in<T>(…), coerce_in, a unit symbol in the unit slot, and a
+// quantity-equivalent but differently typed unit (kilo-milli-U has magnitude one)
+using UEquiv = au::Kilo<au::Milli<U>>;
+static_assert(!std::is_same<UEquiv, U>::value && au::AreUnitsQuantityEquivalent<UEquiv, U>::value, "equivalent, distinct unit type");
+template <class T> __attribute__((noinline)) static T q_rt_rep(T x) { return qmaker(x).template in<T>(qmaker); }
+template <class T> __attribute__((noinline)) static T q_rt_rep_unit(T x) { return au::make_quantity<U>(x).template in<T>(U{}); }
+template <class T> __attribute__((noinline)) static T q_rt_coerce(T x) { return qmaker(x).coerce_in(U{}); }
+template <class T> __attribute__((noinline)) static T q_rt_symbol(T x) { return qmaker(x).in(au::SymbolFor<U>{}); }
+template <class T> __attribute__((noinline)) static T q_rt_equiv(T x) { return qmaker(x).in(UEquiv{}); }
+template <class T> __attribute__((noinline)) static T q_rt_const(T x) { const au::Quantity<U, T> q = qmaker(x); const au::Quantity<U, T> c = q; return c.in(qmaker); }
 
 struct Acc { long n, qbad, pdiff, pmodel; std::string qfirst, pfirst, pmfirst; long neg0, snan, qnan, other; };
 template <class T> static void one(T x, Acc& a) {
     ++a.n;
     T y = q_rt(x), y2 = q_rt_unit(x), y3 = q_rt_inl(x), y4 = q_rt_data(x);
-    if (!same_bits(x, y) || !same_bits(x, y2) || !same_bits(x, y3) || !same_bits(x, y4)) { if (!a.qbad++) a.qfirst = Fmt<T>::s(x); }
+    T y5 = q_rt_rep(x), y6 = q_rt_rep_unit(x), y7 = q_rt_coerce(x), y8 = q_rt_symbol(x), y9 = q_rt_equiv(x), y10 = q_rt_const(x);
+    g_cur_valid = 0;
+    if (!same_bits(x, y) || !same_bits(x, y2) || !same_bits(x, y3) || !same_bits(x, y4) || !same_bits(x, y5) || !same_bits(x, y6) ||
+        !same_bits(x, y7) || !same_bits(x, y8) || !same_bits(x, y9) || !same_bits(x, y10)) { if (!a.qbad++) a.qfirst = Fmt<T>::s(x); }
     T p = p_rt(x);
     if (!same_bits(x, p)) {
         if (!a.pdiff++) a.pfirst = Fmt<T>::s(x);
@@ -426,10 +544,36 @@ template <> long double pattern<long double>() {
 template <class T> static void single(const char* s) {
     V v; if (!Parse<T>::p(s, v)) { std::puts("bad-value"); return; }
     T x = load<T>(v);
+    g_in_request = 1;
     T y = q_rt(x), y2 = q_rt_unit(x), y4 = q_rt_data(x), p = p_rt(x), m = pt_raw(x);
-    std::printf("R q=%s q2=%s q3=%s pt=%s ptraw=%s ub=%ld\n", Fmt<T>::s(y).c_str(), Fmt<T>::s(y2).c_str(), Fmt<T>::s(y4).c_str(),
-                Fmt<T>::s(p).c_str(), Fmt<T>::s(m).c_str(), (long)g_ub);
+    T y5 = q_rt_rep(x), y6 = q_rt_rep_unit(x), y7 = q_rt_coerce(x), y8 = q_rt_symbol(x), y9 = q_rt_equiv(x), y10 = q_rt_const(x);
+    g_in_request = 0;
+    std::printf("R q=%s q2=%s q3=%s q4=%s q5=%s q6=%s q7=%s q8=%s q9=%s pt=%s ptraw=%s ub=%ld\n", Fmt<T>::s(y).c_str(), Fmt<T>::s(y2).c_str(),
+                Fmt<T>::s(y4).c_str(), Fmt<T>::s(y5).c_str(), Fmt<T>::s(y6).c_str(), Fmt<T>::s(y7).c_str(), Fmt<T>::s(y8).c_str(),
+                Fmt<T>::s(y9).c_str(), Fmt<T>::s(y10).c_str(), Fmt<T>::s(p).c_str(), Fmt<T>::s(m).c_str(), (long)g_ub);
 }
+// the round trip inside constant expressions, for the special values of the floating reps
+template <class T> struct CK;
+#define CKDEF(T, SUF, NANF, NANSF, INF) template <> struct CK<T> { static void f() { \
+    int bad = 0, n = 0; \
+    { constexpr T c = T(0); constexpr T y = au::QuantityMaker<U>{}(c).in(au::QuantityMaker<U>{}); ++n; if (!same_bits(c, y)) ++bad; } \
+    { constexpr T c = -T(0); constexpr T y = au::QuantityMaker<U>{}(c).in(au::QuantityMaker<U>{}); ++n; if (!same_bits(c, y)) ++bad; } \
+    { constexpr T c = INF(); constexpr T y = au::QuantityMaker<U>{}(c).in(U{}); ++n; if (!same_bits(c, y)) ++bad; } \
+    { constexpr T c = -INF(); constexpr T y = au::QuantityMaker<U>{}(c).in(U{}); ++n; if (!same_bits(c, y)) ++bad; } \
+    { constexpr T c = NANF("0x12345"); constexpr T y = au::QuantityMaker<U>{}(c).in(U{}); ++n; if (!same_bits(c, y)) ++bad; } \
+    { constexpr T c = -NANF("0x2345"); constexpr T y = au::make_quantity<U>(c).template in<T>(U{}); ++n; if (!same_bits(c, y)) ++bad; } \
+    { constexpr T c = std::numeric_limits<T>::denorm_min(); constexpr T y = au::QuantityMaker<U>{}(c).in(U{}); ++n; if (!same_bits(c, y)) ++bad; } \
+    { constexpr T c = std::numeric_limits<T>::max(); constexpr T y = au::QuantityMaker<U>{}(c).in(U{}); ++n; if (!same_bits(c, y)) ++bad; } \
+    std::printf("K n=%d bad=%d\n", n, bad); } };
+CKDEF(float, f, __builtin_nanf, __builtin_nansf, __builtin_inff)
+CKDEF(double, , __builtin_nan, __builtin_nans, __builtin_inf)
+CKDEF(long double, l, __builtin_nanl, __builtin_nansl, __builtin_infl)
+template <class T, bool Fl = std::is_floating_point<T>::value> struct CKD { static void f() {
+    constexpr T lo = std::numeric_limits<T>::lowest(), hi = std::numeric_limits<T>::max();
+    constexpr T y1 = au::QuantityMaker<U>{}(lo).in(U{}); constexpr T y2 = au::make_quantity<U>(hi).template in<T>(U{});
+    std::printf("K n=2 bad=%d\n", (y1 == lo ? 0 : 1) + (y2 == hi ? 0 : 1)); } };
+template <class T> struct CKD<T, true> { static void f() { CK<T>::f(); } };
+template <class T> static void ck() { CKD<T>::f(); }
 template <class T> static void randoms(long count, uint64_t seed) {
     Acc a = Acc(); rng_state = seed;
     for (long i = 0; i < count; ++i) one(pattern<T>(), a);
@@ -458,13 +602,22 @@ template <class T> struct AllV<T, true> { static void f() { all_values<T>(); } }
 template <class T> static void allv() { AllV<T>::f(); }
 int main() {
     char line[256];
+    install_traps(@CPU_LIMIT@);
     while (std::fgets(line, sizeof line, stdin)) {
         char cmd[8], r[8], a[64]; unsigned long long c = 0, s = 0;
+        int sig = sigsetjmp(g_jb, 1);
+        if (sig) {
+            g_in_request = 0;
+            if (sig == SIGXCPU) bump_cpu_limit(@CPU_LIMIT@);
+            std::printf("TRAP sig=%d\n", sig); std::fflush(stdout);
+            continue;
+        }
         if (std::sscanf(line, "%7s", cmd) != 1) { std::puts("bad"); continue; }
         if (cmd[0] == 'R') { if (std::sscanf(line, "%7s %7s %63s", cmd, r, a) != 3) { std::puts("bad"); continue; } DISPATCH(single, a) }
-        else if (cmd[0] == 'N') { if (std::sscanf(line, "%7s %7s %llu %llu", cmd, r, &c, &s) != 4) { std::puts("bad"); continue; } DISPATCH(randoms, (long)c, (uint64_t)s) }
-        else if (cmd[0] == 'A') { if (std::sscanf(line, "%7s %7s", cmd, r) != 2) { std::puts("bad"); continue; } DISPATCH(allv) }
-        else if (cmd[0] == 'F') { if (std::sscanf(line, "%7s %llu %llu", cmd, &c, &s) != 3) { std::puts("bad"); continue; } all_floats((unsigned)c, (unsigned)s); }
+        else if (cmd[0] == 'N') { if (std::sscanf(line, "%7s %7s %llu %llu", cmd, r, &c, &s) != 4) { std::puts("bad"); continue; } g_in_request = 1; DISPATCH(randoms, (long)c, (uint64_t)s) g_in_request = 0; }
+        else if (cmd[0] == 'A') { if (std::sscanf(line, "%7s %7s", cmd, r) != 2) { std::puts("bad"); continue; } g_in_request = 1; DISPATCH(allv) g_in_request = 0; }
+        else if (cmd[0] == 'K') { if (std::sscanf(line, "%7s %7s", cmd, r) != 2) { std::puts("bad"); continue; } DISPATCH(ck) }
+        else if (cmd[0] == 'F') { if (std::sscanf(line, "%7s %llu %llu", cmd, &c, &s) != 3) { std::puts("bad"); continue; } g_in_request = 1; all_floats((unsigned)c, (unsigned)s); g_in_request = 0; }
         else std::puts("bad");
         std::fflush(stdout);
     }
